@@ -1,7 +1,8 @@
 # C05: marginals and linear images have the law of the sub-vector / of Wx+b
 from . import lin, common as C
 PROP = "C05"
-PROPS_FILE = "props/C05.v"
+PROPS_FILE = ["props/C05.v", "props/GI.v"]
+TRUSTED_EXTRA = ["props/GI.v (the Gaussian-integral specification as a theorem about iterated improper Riemann integrals, at Coq's real numbers: stdlib Reals + Coquelicot + base/RField.v) depends on the standard-library axioms ClassicalDedekindReals.sig_not_dec, sig_forall_dec, FunctionalExtensionality.functional_extensionality_dep, Classical_Prop.classic, Epsilon.epsilon_statement (choiceType structure of R); the theorems of props/C05.v themselves (every real field) stay closed under the global context"]
 RULE = ('cases = get_marginal for every non-empty index list without repetition in random order (all subsets for D<=3 quick / D<=4 thorough, random for larger D, all coordinates included; in a quarter of the cases some coordinates addressed from the end by negative indices), full and diagonal densities, R in 1..4; get_density_of_linear_sum for integer full-row-rank W with Dsum<=D, b present or omitted' "; rational parameters (small integers over denominators 1,2,4; SPD = B B' + d I, cond <= 1e3), random constructor "
         "argument combination; non-trivial = more than one scalar dimension/component involved; distinct = SHA1 of the input description")
 EXPLANATION = ("model get_marginal / linear_sum (Pdf.v) at Qc vs implementation; oracle: independent normal log-density of mu[idx], Sigma[idx,idx] resp. W mu + b, W Sigma W' (numpy)")
